@@ -13,7 +13,7 @@ TIMEOUT = 120.0
 CHUNK = 8
 FLOOR = 0.45
 RULE = ('every base model x solver x every subset of the rewrite group of size <= k (k = 2 quick, 3 thorough) x every '
-        'combination of variants of the active rewrites; palette = VERIF_SEED mod 4 in the quick tier, all 4 in the '
+        'combination of variants of the active rewrites, plus every subset of size k+1 with the first variant of each;  palette = VERIF_SEED mod 4 in the quick tier, all 4 in the '
         'thorough tier; non-trivial = at least one rewrite active, both builds report optimal and agree')
 ASSUMPTIONS = [
     'the rewrites are meaning-preserving on these specs by elementary algebra (positive scaling by a dyadic factor, '
@@ -36,9 +36,11 @@ def gen_cases(tier, seed):
     pals = [0, 1, 2, 3] if thorough else [seed % 4]
     kmax = 3 if thorough else 2
     names = sorted(VARIANTS)
-    for k in range(0, kmax + 1):
+    for k in range(0, kmax + 2):
         for subset in itertools.combinations(names, k):
-            for combo in itertools.product(*[VARIANTS[r] for r in subset]):
+            # subsets one larger than the bound are enumerated with the first variant of every rewrite only
+            choices = [VARIANTS[r] if k <= kmax else VARIANTS[r][:1] for r in subset]
+            for combo in itertools.product(*choices):
                 act = dict(zip(subset, combo))
                 for base in BASES:
                     if any((base, r) in NOT_APPLICABLE for r in subset):
@@ -53,7 +55,8 @@ def exhaustive(tier):
 
 
 def bounds(tier):
-    return {'rewrites': 9, 'max_simultaneous_rewrites': 3 if tier == 'thorough' else 2, 'bases': len(BASES),
+    return {'rewrites': 9, 'max_simultaneous_rewrites_all_variants': 3 if tier == 'thorough' else 2,
+            'max_simultaneous_rewrites_first_variant': 4 if tier == 'thorough' else 3, 'bases': len(BASES),
             'palettes': 4 if tier == 'thorough' else 1}
 
 
